@@ -24,7 +24,7 @@ from __future__ import absolute_import
 from gevent import Timeout
 
 from slimta.smtp.client import LmtpClient
-from .client import SmtpRelayClient
+from .client import SmtpRelayClient, RecipientsRefused
 from . import SmtpRelayError
 
 __all__ = ['LmtpRelayClient']
@@ -52,6 +52,10 @@ class LmtpRelayClient(SmtpRelayClient):
             self._handle_encoding(envelope)
             self._send_envelope(rcpt_results, envelope)
             data_results = self._send_message_data(envelope)
+        except RecipientsRefused as e:
+            result.set(dict(zip(envelope.recipients, e.errors)))
+            self._rset()
+            return
         except SmtpRelayError as e:
             result.set_exception(e)
             self._rset()
